@@ -233,6 +233,11 @@ endstruc
         add     tmp, tmp3
 
         memcpy_avx_16 m_last, tmp, r, tmp4, iv
+%ifdef SAFE_DATA
+        ;; the copy goes through these two registers: do not leave message bytes in them
+        xor     tmp4, tmp4
+        xor     iv, iv
+%endif
 
         ;; src + n + r
         mov     tmp3, [job + _skey2]
